@@ -86,27 +86,17 @@ def unliteral : Ty → Ty
   | .flit => .float
   | t => t
 
-/-- the arm of `is_plain_place` for the constructor hands exactly its object (field 0) back to `is_plain_place` -/
-def objectPlace (c : String) : Bool :=
-  match remAssignPlaceGuard.find? (fun r => r.ctor == c) with
-  | some r => r.ops.isEmpty && r.self == [0] && r.other.isEmpty && r.allOf.isEmpty
-  | none => false
+/-- `is_plain_place` on the vector layer (fix 92d66eb), through the re-extracted table: variables, swizzles of plain places -/
+def plainPlaceV (e : VExpr) : Bool := MslDup.plainPlaceD (MslDup.toDV e)
 
-/-- `is_plain_place` on the vector layer (fix 92d66eb): variables, swizzles of plain places -/
-def plainPlaceV : VExpr → Bool
-  | .sc e => GenMsl.plainPlace e
-  | .vvar _ => GenMsl.leafPlace "Variable"
-  | .vglobal _ => GenMsl.leafPlace "Global"
-  | .swz e _ => objectPlace "Swizzle" && plainPlaceV e
-  | .cast _ _ => GenMsl.leafPlace "Cast"
-  | .ctor _ _ => GenMsl.leafPlace "Constructor"
-  | .tern _ _ _ => GenMsl.leafPlace "TernaryConditional"
-  | .op _ _ => GenMsl.leafPlace "IntrinsicOp"
+/-- `is_free_of_writes` on the vector layer (fix 35faaaa) -/
+def freeOfWritesV (e : VExpr) : Bool := MslDup.freeOfWritesD (MslDup.toDV e)
 
-/-- `is_plain_place(&exprs[0])` -/
-def plainPlaceVHead : VExprs → Bool
-  | .nil => false
-  | .cons a _ => plainPlaceV a
+/-- `!is_plain_place(&exprs[0]) || !is_free_of_writes(&exprs[1])` does not refuse -/
+def remOperandsOKV : VExprs → Except GenErr Bool
+  | .nil => .error (.panic "generate_intrinsic_op: index out of bounds")
+  | .cons a .nil => if plainPlaceV a then .error (.panic "generate_intrinsic_op: index out of bounds") else .ok false
+  | .cons a (.cons b _) => .ok (plainPlaceV a && freeOfWritesV b)
 
 /-- `exprs[0].get_type(context.module).unwrap()` -/
 def getTyHead (cx : Ctx) (vvty : Var → VTy) : VExprs → Except GenErr VTy
@@ -201,7 +191,10 @@ def genMV (cx : Ctx) (vvty : Var → VTy) : VExpr → Except GenErr VAExpr
       | .error e => .error e
       | .ok t =>
         if scalarIn scalars t.scalar then
-          if plainPlaceVHead args then
+          match remOperandsOKV args with
+          | .error e => .error e
+          | .ok false => .error (.diag err)
+          | .ok true =>
             match mslOpForm outer with
             | .binary bo =>
               match genMHead cx vvty args with
@@ -223,7 +216,6 @@ def genMV (cx : Ctx) (vvty : Var → VTy) : VExpr → Except GenErr VAExpr
                   | .ok v => .ok (.bin bo a' v)
                 | _ => .error (.unsupported "float assign: form of the inner operator")
             | _ => .error (.unsupported "float assign: form of the outer operator")
-          else .error (.diag err)
         else genMBinary cx vvty b args
 /-- `generate_expression(&exprs[0], …)` -/
 def genMHead (cx : Ctx) (vvty : Var → VTy) : VExprs → Except GenErr VAExpr
